@@ -50,7 +50,11 @@ pub fn spec(id: &str) -> Option<Spec> {
             id: "C03",
             level: "exploration",
             rule: "same histories; reference model (outstanding map, used FIFO, free count) checked after every operation; wrap batch runs > 65536 submissions; non-trivial as C01",
-            batches: vec![b("history", scen::queue::history, 6000, 120_000), heavy("wrap", scen::queue::wrap_history, 32, 256)],
+            batches: vec![
+                b("history", scen::queue::history, 6000, 120_000),
+                b("history_faulty", scen::queue::history_faulty, 3000, 60_000),
+                heavy("wrap", scen::queue::wrap_history, 32, 256),
+            ],
             extras: vec![],
             assumptions: vec!["sampling of histories, not enumeration"],
             real: REAL_QUEUE.to_vec(),
@@ -60,7 +64,11 @@ pub fn spec(id: &str) -> Option<Spec> {
             id: "C04",
             level: "exploration",
             rule: "same histories; SimHal ledger invariants online (share once / unshare once, exact arguments, device address returned by share, no share on refusal, device accesses only live shares/DMA in permitted direction, data appears at consumption); non-trivial as C01",
-            batches: vec![b("history", scen::queue::history, 6000, 120_000), heavy("wrap", scen::queue::wrap_history, 8, 64)],
+            batches: vec![
+                b("history", scen::queue::history, 6000, 120_000),
+                b("history_faulty", scen::queue::history_faulty, 3000, 60_000),
+                heavy("wrap", scen::queue::wrap_history, 8, 64),
+            ],
             extras: vec![],
             assumptions: vec!["platform layer always bounces (device address never equals virtual address)"],
             real: REAL_QUEUE.to_vec(),
